@@ -1,4 +1,4 @@
-import PhyModel.Proofs.PG4
+import PhyModel.Proofs.PG9
 import PhyModel.Proofs.C19Example
 import Mathlib.Tactic.FinCases
 import Mathlib.Tactic.NormNum
@@ -74,5 +74,31 @@ theorem exHyp (k : Proposal.Prop3) : Hyp Props.C19.exData (exCfg k) [1, 0] where
     intro i hi
     simp only [List.mem_cons, List.not_mem_nil, or_false] at hi
     rcases hi with rfl | rfl <;> decide
+
+theorem exHypD (k : Proposal.Prop3) : HypD Props.C19.exData (exCfg k) [0, 1] where
+  hG := by decide
+  hα := by norm_num [exCfg]
+  op0 := by norm_num [exCfg]
+  op1 := by norm_num [exCfg]
+  nodup := by decide
+  good := by
+    intro i hi
+    simp only [List.mem_cons, List.not_mem_nil, or_false] at hi
+    rcases hi with rfl | rfl
+    · exact Props.C19.exGood0
+    · exact Props.C19.exGood1
+  big := by
+    intro i hi
+    simp only [List.mem_cons, List.not_mem_nil, or_false] at hi
+    rcases hi with rfl | rfl <;> decide
+  ne := by simp
+  perm := rfl
+
+/-- data point 0 in a clone above the clone of data point 1 -/
+def exChain : T := T.mk' (.cons [0] (.cons [1] .nil .nil) .nil) []
+
+theorem exChain_wft (k : Proposal.Prop3) : WFT (exCfg k) exChain := by
+  refine ⟨by decide +kernel, by decide +kernel, by decide +kernel, by decide +kernel, ?_⟩
+  intro h; exact absurd h (by norm_num [exCfg])
 
 end PhyModel.PG
